@@ -66,6 +66,18 @@ pub fn run_suite(em: &mut Emit, thorough: bool, _seed: u64, abort: bool, body_dr
     run_suite_with(em, thorough, abort, body_drop, false)
 }
 
+/// `HS_SHARD=i/k`: this process handles every k-th program starting at i (the orchestrator
+/// runs k processes in parallel in the thorough tier).
+fn shard() -> (usize, usize) {
+    std::env::var("HS_SHARD")
+        .ok()
+        .and_then(|s| {
+            let (a, b) = s.split_once('/')?;
+            Some((a.parse().ok()?, b.parse().ok()?))
+        })
+        .unwrap_or((0, 1))
+}
+
 pub fn run_suite_with(em: &mut Emit, thorough: bool, abort: bool, body_drop: bool, c20: bool) {
     install_hook();
     let max_len = if thorough { 4 } else { 3 };
@@ -73,6 +85,8 @@ pub fn run_suite_with(em: &mut Emit, thorough: bool, abort: bool, body_drop: boo
     let mut total = 0usize;
     let mut exhausted = 0usize;
     let mut nprog = 0usize;
+    let (shard_i, shard_k) = shard();
+    let mut counter = 0usize;
     for cap in [2usize] {
         for prod in programs(max_len, abort, cap) {
             if abort && !prod.contains(&PCmd::Abort) && !body_drop {
@@ -97,6 +111,10 @@ pub fn run_suite_with(em: &mut Emit, thorough: bool, abort: bool, body_drop: boo
                             spurious,
                             drop_body_after,
                         };
+                        counter += 1;
+                        if counter % shard_k != shard_i {
+                            continue;
+                        }
                         nprog += 1;
                         let (n, ex) = explore(&prog, per_prog_limit, |r| {
                             let p = if c20 { pred_c20_sched(&prog, r) } else if body_drop { pred_c11_sched(&prog, r) } else { pred_c10(&prog, r) };
